@@ -168,7 +168,11 @@ func newPluginContainer() *PluginContainer {
 
 func (p *PluginContainer) cloneAndAppendMiddle(plugins ...Plugin) *PluginContainer {
 	middle := newPluginSingleContainer()
-	middle.plugins = append(p.middle.GetAll(), plugins...)
+	// Copy: appending directly to p.middle's slice could write into spare capacity of its
+	// backing array, which sibling containers cloned from p would then share.
+	middle.plugins = make([]Plugin, 0, len(p.middle.plugins)+len(plugins))
+	middle.plugins = append(middle.plugins, p.middle.plugins...)
+	middle.plugins = append(middle.plugins, plugins...)
 
 	newPluginContainer := newPluginContainer()
 	newPluginContainer.middle = middle
@@ -179,7 +183,8 @@ func (p *PluginContainer) cloneAndAppendMiddle(plugins ...Plugin) *PluginContain
 	oldRefreshTree := p.refreshTree
 	p.refreshTree = func() {
 		oldRefreshTree()
-		newPluginContainer.refresh()
+		// the clone's whole subtree, not just the clone itself
+		newPluginContainer.refreshTree()
 	}
 	return newPluginContainer
 }
